@@ -190,7 +190,11 @@ func render(b []*stmt, ind string) string {
 		case opCFor:
 			if s.Init != nil {
 				init := strings.TrimSpace(render([]*stmt{s.Init}, ""))
-				fmt.Fprintf(&sb, "for %s; %s < %d; %s++ {\n%s%s}", init, s.Name, s.N, s.Name, render(s.Body, in2), ind)
+				cnd := fmt.Sprintf("%s < %d", s.Name, s.N)
+				if s.Cond != nil {
+					cnd = renderCond(s.Cond, ind)
+				}
+				fmt.Fprintf(&sb, "for %s; %s; %s++ {\n%s%s}", init, cnd, s.Name, render(s.Body, in2), ind)
 				break
 			}
 			if s.InitFn != nil {
@@ -605,6 +609,9 @@ func (m *machine) exec(st *stmt, s *mscope) sig {
 			hdr.assign(st.Name, mval{k: 'i', n: 0})
 		}
 		cnd := func() (bool, bool) { return m.evalCond(&cond{K: '<', N: st.Name, C: st.N}, hdr) }
+		if st.Cond != nil {
+			cnd = func() (bool, bool) { return m.evalCond(st.Cond, hdr) }
+		}
 		post := func() bool {
 			v, ok := hdr.lookup(st.Name)
 			if !ok || v.k != 'i' {
